@@ -4,7 +4,7 @@ import ast
 
 import networkx as nx
 
-from .. import tables
+from .. import AnalysisError, tables
 from ..callgraph import callgraph
 from ..canon import canon, linform, single_assignments, cexpr
 from ..lin import lin_eq
@@ -255,23 +255,40 @@ def run(ctx):
     uh2 = ctx.fn(INS + ".update_history")
     okh = len(_fs("for $$k in self.stopping_criterion_aliases.keys():\n    self.history['stopping_criteria'][$$k].append(getattr(self, $$k, nan))", uh2.node)) == 1
     ctx.ob("R-PROV", "C15.1", uh2, "the run history records the same attributes by the same names (getattr(self, k))", okh, "")
-    # criterion definitions
-    defs = {}
-    for n in walk_no_nested(csc.node):
-        if isinstance(n, ast.Assign) and isinstance(n.targets[0], ast.Attribute) and is_self_attr(n.targets[0]):
-            defs.setdefault(n.targets[0].attr, []).append(n)
-    want = {
-        "ratio": "self._ordered_samples.compute_evidence_ratio()",
-        "ratio_ns": "self.state.compute_evidence_ratio(ns_only=True)",
-        "ess": "self.state.effective_n_posterior_samples",
-        "Z_err": "exp(self.log_evidence_error)",
-        "fractional_error": "self.state.evidence_error / self.state.evidence",
-    }
+    # criterion definitions: the final value of every criterion attribute on every path through the function, compared
+    # with a reference implementation (temporaries, a record dict copied onto the attributes, either spelling of the
+    # first-iteration branch all give the same path signatures)
+    from ..summ import signatures as _sigs_
+
+    CRIT = ("log_dZ", "ratio", "ratio_ns", "ess", "Z_err", "fractional_error")
+    REF_C = (
+        "def ref(self):\n"
+        "    if self.iteration > 0:\n"
+        "        self.log_dZ = np.abs(self.log_evidence - self.history['logZ'][-1])\n"
+        "    else:\n"
+        "        self.log_dZ = np.inf\n"
+        "    self.ratio = self._ordered_samples.compute_evidence_ratio()\n"
+        "    self.ratio_ns = self.state.compute_evidence_ratio(ns_only=True)\n"
+        "    self.ess = self.state.effective_n_posterior_samples\n"
+        "    self.Z_err = np.exp(self.log_evidence_error)\n"
+        "    self.fractional_error = self.state.evidence_error / self.state.evidence\n"
+    )
+    track_ = tuple("self." + k for k in CRIT)
+    proj_ = lambda sigs_: {(s_[0], s_[1]) for s_ in sigs_}
+    try:
+        ref_c = proj_(_sigs_(ast.parse(REF_C).body[0], canon, track=track_))
+        code_c = proj_(_sigs_(csc.node, canon, track=track_))
+    except ValueError as e_:
+        raise AnalysisError(f"compute_stopping_criterion: {e_} (ANALYSIS-INCOMPLETE)")
+    want = {"ratio": "self._ordered_samples.compute_evidence_ratio()", "ratio_ns": "self.state.compute_evidence_ratio(ns_only=True)", "ess": "self.state.effective_n_posterior_samples", "Z_err": "exp(self.log_evidence_error)", "fractional_error": "self.state.evidence_error / self.state.evidence"}
     for k, v in want.items():
-        ctx.ob("R-SIB", "C15.4", csc, f"criterion `{k}` = {v}", k in defs and len(defs[k]) == 1 and canon(defs[k][0].value) == v, f"`{src(defs[k][0].value) if k in defs else None}`")
-    dz = defs.get("log_dZ", [])
-    okd = len(dz) == 2 and {canon(x.value) for x in dz} == {"abs(self.log_evidence - self.history['logZ'][-1])", "inf"}
-    ctx.ob("R-SIB", "C15.4", csc, "criterion `log_dZ` = |log Z - previous recorded log Z| (inf at the first iteration)", okd, f"{[src(x.value) for x in dz]}")
+        i_ = CRIT.index(k)
+        got_ = {s_[1][i_][1] for s_ in code_c}
+        ctx.ob("R-SIB", "C15.4", csc, f"criterion `{k}` = {v}", got_ == {s_[1][i_][1] for s_ in ref_c}, f"`{sorted(map(str, got_))}`")
+    i_ = 0
+    got_ = {(tuple(sorted(s_[0])), s_[1][i_][1]) for s_ in code_c}
+    ref_ = {(tuple(sorted(s_[0])), s_[1][i_][1]) for s_ in ref_c}
+    ctx.ob("R-SIB", "C15.4", csc, "criterion `log_dZ` = |log Z - previous recorded log Z| (inf at the first iteration)", got_ == ref_, f"{sorted(got_)}")
     # ... and the "previous recorded log Z" is the same quantity one iteration earlier: what update_history appends to
     # history['logZ'] is the run's own log-evidence (self.state.logZ, directly or through the log_evidence property)
     le_ = prog.cls(INS).methods.get("log_evidence")
